@@ -143,6 +143,11 @@ T2 = [
     ({"sel": {"f|expand": "%x%"}}, {"type": "wildcard_placeholders"}),
     ({"sel": {"f|fieldref": "f"}}, {"type": "field_name_mapping", "mapping": {"f": "g"}}),
     ({"sel": ["kw1", "kw2"]}, {"kind": "kw2field", "scope": None}),
+    ({"sel": {"fieldA|contains": "Abc*", "fieldA": 1}}, {"type": "field_name_mapping", "mapping": {"fieldA": ["m1", "m2"]}}),
+    ({"sel": {"f|base64": "a", "f|contains": "b"}}, {"type": "field_name_mapping", "mapping": {"f": ["g", "h"]}}),
+    ({"sel": [{"f|wide": "a"}, {"f": "b"}]}, {"type": "field_name_mapping", "mapping": {"f": ["g", "h"]}}),
+    ({"sel": {"f|fieldref": "f"}}, {"type": "field_name_mapping", "mapping": {"f": ["g", "h"]}}),
+    ({"sel": ["kw1", "kw2"]}, {"type": "field_name_mapping", "mapping": {"nothing": "x"}}),
 ]
 
 
@@ -184,11 +189,12 @@ def gen_cases(tier, seed, gen, effort):
             doc["logsource"] = rule["logsource"]
             doc["detection"] = {**rule["dets"], "condition": rule["cond"]}
             cases.append({"kind": "transformed", "doc": doc, "t": c12.gen_transformation(rr)})
-            if rr.random() < 0.15:
-                dets, ty = rr.choice(T2)
-                doc = meta(rnd, i)
-                doc["detection"] = {**copy.deepcopy(dets), "condition": "sel"}
-                cases.append({"kind": "transformed", "doc": doc, "t": ty if "kind" in ty else {"yaml": ty}})
+    # fixed regression sub-stream: every (rule, transformation) pair of T2 (the inputs of the former findings
+    # D60, D61, D68 among them) in every run
+    for n, (dets, ty) in enumerate(T2):
+        doc = meta(random.Random(n), 900000 + n)
+        doc["detection"] = {**copy.deepcopy(dets), "condition": "sel"}
+        cases.append({"kind": "transformed", "doc": doc, "t": ty if "kind" in ty else {"yaml": ty}})
     return cases, False
 
 
@@ -417,7 +423,6 @@ def _d3(doc):
 
 # ------------------------------------------------------------------ classes of the recorded findings (predicates on the input)
 ALIASES = {"i": "ignorecase", "m": "multiline", "dotall": "s"}
-REAPPLIED = {"base64", "wide", "utf16", "utf16le", "utf16be", "minute", "hour", "day", "week", "month", "year"}
 
 
 def canon_key(k):
@@ -449,20 +454,10 @@ def classify(case):
         return "D3"
     if case["kind"] == "transformed":
         ty = t_yaml(case["t"])
-        keys = [k for d in doc["detection"].values() for x in walk_defs(d) if isinstance(x, dict) for k in x]
-        if ty.get("type") == "regex" and any("|" not in k for k in keys):
-            return "D61"       # a value transformation leaves a non-plain value type in an item without modifiers
         if ty.get("type") == "field_name_mapping":
             targets = [t for v in ty["mapping"].values() for t in (v if isinstance(v, list) else [v])]
-            if any(isinstance(v, list) and len(v) > 1 for v in ty["mapping"].values()) and any(set(k.split("|")[1:]) & REAPPLIED for k in keys):
-                return "D60"   # one-to-many field mapping writes the modified values under the modifier key
             if any(t == "" or "|" in t for t in targets):
                 return "D67"   # target field name that cannot be written as a key
-            many = {f for f, v in ty["mapping"].items() if isinstance(v, list) and len(v) > 1}
-            for d in doc["detection"].values():
-                for x in walk_defs(d):
-                    if isinstance(x, dict) and len(x) > 1 and all(k.split("|")[0] in many for k in x):
-                        return "D68"   # every item of an AND-linked map is replaced by an OR-linked detection
         return None
     if case["kind"] != "rule":
         return None
